@@ -78,11 +78,13 @@ func (b *Bus) Write24(addr uint32, value uint32) {
 }
 
 func (b *Bus) EaRead(addr uint32) uint8 {
+	addr &= 0x00ffffff // the address bus is 24 bits wide
 	b.M = b.Read[addr>>4](addr)
 	return b.M
 }
 
 func (b *Bus) EaWrite(addr uint32, val uint8) {
+	addr &= 0x00ffffff // the address bus is 24 bits wide
 	b.Write[addr>>4](addr, val)
 	b.M = val
 }
@@ -99,7 +101,7 @@ func (b *Bus) nWrite16_cross(bank byte, addr uint16, value uint16) {
 	ll := byte(value)
 	hh := byte(value >> 8)
 	b.Write[ea>>4](ea, ll)
-	ea++
+	ea = (ea + 1) & 0x00ffffff // wrap on 24bits
 	b.Write[ea>>4](ea, hh)
 	b.M = hh
 }
@@ -107,8 +109,9 @@ func (b *Bus) nWrite16_cross(bank byte, addr uint16, value uint16) {
 func (b *Bus) eaWrite16_cross(ea uint32, value uint16) {
 	ll := byte(value)
 	hh := byte(value >> 8)
+	ea &= 0x00ffffff // wrap on 24bits
 	b.Write[ea>>4](ea, ll)
-	ea++
+	ea = (ea + 1) & 0x00ffffff // wrap on 24bits
 	b.Write[ea>>4](ea, hh)
 	b.M = hh
 }
@@ -154,6 +157,7 @@ func (b *Bus) nRead16_cross(bank byte, addr uint16) uint16 {
 }
 
 func (b *Bus) eaRead16_cross(ea uint32) uint16 {
+	ea &= 0x00ffffff // wrap on 24bits
 	ll := b.Read[ea>>4](ea)
 	ea = (ea + 1) & 0x00ffffff // wrap on 24bits
 	hh := b.Read[ea>>4](ea)
